@@ -16,6 +16,7 @@
        | (c1 (cov) (RULES ...)) | (c2 (cov) ((class glyphs) ...) (RULES ...)) | (c3 ((set) ...) ACTS)
        | (h1 (cov) (CRULES ...)) | (h2 (cov) (bt classes) (in classes) (la classes) (CRULES ...))
        | (h3 (bt sets) (in sets) (la sets) ACTS)      CRULES = (((backtrack) (input tail) (lookahead) ACTS) ...)
+       | (p31 (cov) (((x1 y1) (x2 y2)) ...))
    RULES = (((input tail) ACTS) ...)   ACTS = ((lookup-index sequence-index) ...)
    ADJ = _ | (x y dx) *)
 
@@ -46,8 +47,15 @@ let rules_of_sx x =
 let crules_of_sx x =
   List.map (fun rs -> List.map (fun r -> match r with
     | L [b; i; l; a] -> (((ns b, ns i), ns l), acts_of_sx a) | _ -> failwith "bad chain rule") (lst rs)) (lst x)
+let anchor_of_sx x = match x with L [a; b] -> (sx_z a, sx_z b) | _ -> failwith "bad anchor"
+let sx_of_anchor (a, b) = L [az a; az b]
 let sub_of_sx (x : sx) : subtable =
   match x with
+  | L [A "p31"; cov; recs] ->
+    Pos (Gpos3_1 (ns cov, List.map (fun r -> match r with L [e; x] -> (anchor_of_sx e, anchor_of_sx x) | _ -> failwith "bad record") (lst recs)))
+  | L [A "p41"; mc; ma; bc; ba] ->
+    Pos (Gpos4_1 (ns mc, List.map (fun r -> match r with L [c; x; y] -> (sx_n c, (sx_z x, sx_z y)) | _ -> failwith "bad mark") (lst ma),
+                  ns bc, List.map (fun r -> List.map anchor_of_sx (lst r)) (lst ba)))
   | L [A "h1"; cov; rules] -> Chn (Chain1 (ns cov, crules_of_sx rules))
   | L [A "h2"; cov; b; i; l; rules] ->
     Chn (Chain2 (ns cov, List.map ns (lst b), List.map ns (lst i), List.map ns (lst l), crules_of_sx rules))
@@ -79,6 +87,10 @@ let sx_of_crules rules =
   L (List.map (fun rs -> L (List.map (fun (((b, i), l), a) -> L [lns b; lns i; lns l; sx_of_acts a]) rs)) rules)
 let lls x = L (List.map lns x)
 let sx_of_sub = function
+  | Pos (Gpos3_1 (cov, recs)) -> L [A "p31"; lns cov; L (List.map (fun (e, x) -> L [sx_of_anchor e; sx_of_anchor x]) recs)]
+  | Pos (Gpos4_1 (mc, ma, bc, ba)) ->
+    L [A "p41"; lns mc; L (List.map (fun (c, (x, y)) -> L [an c; az x; az y]) ma); lns bc;
+       L (List.map (fun r -> L (List.map sx_of_anchor r)) ba)]
   | Chn (Chain1 (cov, rules)) -> L [A "h1"; lns cov; sx_of_crules rules]
   | Chn (Chain2 (cov, b, i, l, rules)) -> L [A "h2"; lns cov; lls b; lls i; lls l; sx_of_crules rules]
   | Chn (Chain3 (b, i, l, acts)) -> L [A "h3"; lls b; lls i; lls l; sx_of_acts acts]
